@@ -1,7 +1,7 @@
 """C14 - Gecko reassembles handshake packets exactly with bounded state."""
 
 MANIFEST = dict(
-    text="TLC exhausts Sys_Gecko (acceptChunk / dropEntry / evictOldest / gcExpired transcribed from gecko.go with scaled caps 2/3 and TTL; adversarial deliveries: any order, duplicates, six messages of three sources incl. a key reused with another chunk count, time passing; sender split/padding arithmetic on a boundary grid) against the Prop_C14 monitor and rejects model mutants (no counter decrement on completion, duplicate accepted, chunk-count mismatch ignored, per-source cap off by one, sweep disabled; two per quick run, all five in thorough). TLC-generated delivery/tick behaviours and seeded drivers (real sender frames permuted/duplicated/interleaved across messages and sources, 8-bit ID wraparound, TTL boundaries, per-source and 4500-source floods at the real caps 8/4096, ill-formed frames) run against the real WrapPacketConnGecko in a synctest bubble; every WriteTo/ReadFrom and the census of the reassembly table is validated by TLC against the same monitor.",
+    text="TLC exhausts Sys_Gecko (acceptChunk / dropEntry / evictOldest / gcExpired transcribed from gecko.go with scaled caps 2/3 and TTL; adversarial deliveries: any order, duplicates, six messages of three sources incl. a key reused with another chunk count, time passing; sender split/padding arithmetic on a boundary grid) against the Prop_C14 monitor and rejects model mutants (no counter decrement on completion, duplicate accepted, chunk-count mismatch ignored, per-source cap off by one, sweep disabled, message ID consumed only after the last chunk; two per quick run, all six in thorough). TLC-generated delivery/tick behaviours and seeded drivers (real sender frames permuted/duplicated/interleaved across messages and sources, 8-bit ID wraparound, sends aborted by a transient inner-socket error followed by further messages, concurrent WriteTo calls on one socket, TTL boundaries, per-source and 4500-source floods at the real caps 8/4096, ill-formed frames) run against the real WrapPacketConnGecko in a synctest bubble; every WriteTo/ReadFrom and the census of the reassembly table is validated by TLC against the same monitor.",
     note="Trusted: TLC, the harness' byte comparison of emitted packets (the monitor decides on identities, counts, times, caps), the harness' own frame parser and Salamander codec. White box: len(reassembly), perSource, table keys. 'Forgotten after its TTL' is judged at TTL + sweep period (12 s). Two pending messages with one (source, ID, chunk count) are outside the property. Virtual time (testing/synctest).",
     tech="TLA+ model checking (TLC) + TLC-generated scenario replay + TLC trace validation of real-code traces", ref="5/C14")
 
@@ -32,14 +32,14 @@ def run(ctx):
     ctx.tlc_mc("MC_Gecko", "MC_Gecko_cap.cfg", workers=8)               # 4 deliveries, no tick: global cap and eviction
     if T:
         ctx.tlc_mc("MC_Gecko", "MC_Gecko_big.cfg", timeout=1200)
-    muts = ("NoDec", "Dup", "Total", "Cap", "NoGc")
+    muts = ("NoDec", "Dup", "Total", "Cap", "NoGc", "LateId")
     if not T:   # quick: two of the model mutants (rotating with the seed); thorough: all of them
         muts = [muts[ctx.seed % len(muts)], muts[(ctx.seed + 2) % len(muts)]]
     for m in muts:
         ctx.tlc_mc("MC_Gecko", "MC_Gecko_mut%s.cfg" % m, expect_violation=True, workers=4)
     scns = ctx.tlc_gen("MC_Gecko", "Gen_Gecko.cfg", num=1500 if T else 120, depth=40)
     ctx.write_scenarios("gecko", scns)
-    ctx.go_test("extras", "./obfs/", "TestVerif_C14$", ["harness/extras/obfs/c14_test.go"])
+    ctx.go_test("extras", "./obfs/", "TestVerif_C14$", ["harness/extras/obfs/c14_test.go"], timeout=900 if T else 240)
     ctx.validate("Prop_C14", sig=sig, distinct=distinct)
     ctx.assumptions += ["pending messages of one source carry distinct message IDs (two messages with one (source, ID, chunk count) pending together are outside the property)",
                         "an incomplete message counts as forgotten when none of its chunks older than TTL + sweep period (12 s) can complete it and no table entry is older than that",
